@@ -10,7 +10,7 @@ LEVEL = "fault_enumeration"
 
 def run(tier, v):
     ex = fsx.Explorer()
-    names = ["S1", "S2", "S3", "S4", "S5", "S6", "S7", "S10", "S5b", "S5c", "S5d"]
+    names = ["S1", "S2", "S3", "S4", "S5", "S6", "S7", "S10", "S5b", "S5c", "S5d", "S11"]
     bound = 2 if tier == "thorough" else 1
     menu = {"kill", "fail", "short", "logfail"}
     total_exec = 0
@@ -51,7 +51,7 @@ def run(tier, v):
 
     for n in names:
         sc = scenarios.ALL[n]()
-        this_bound = bound if n not in ("S5b", "S10", "S5c", "S5d") else 1
+        this_bound = bound if n not in ("S5b", "S10", "S5c", "S5d", "S11") else 1
         # the 64 KiB file: quick explores kills only (every operation), thorough the whole menu
         this_menu = {"kill"} if (n == "S5b" and tier != "thorough") else menu
         base, nx, capped = ex.explore(sc, this_menu, this_bound, oracle)
